@@ -23,6 +23,8 @@ def opLoad2 (args impl : List String) : Verdict :=
       | rcF :: rcM :: rest =>
         if rcF.contains '!' then
           .fail s!"the descriptor route does not leave the caller's descriptor usable (a second load of the same bytes through it must behave like the first): {rcF}"
+        else if rcM.contains '!' then
+          .fail s!"the memory route wrote to the caller's bytes: {rcM}"
         else if rcF ≠ toString (R.rc rf) then .fail s!"descriptor route rc: model {R.rc rf} impl {rcF}"
         else if rcM ≠ toString (R.rc rm) then .fail s!"memory route rc: model {R.rc rm} impl {rcM}"
         else
